@@ -96,6 +96,13 @@ func isPrefix(a, b doctree.Path) bool {
 // related decides whether a reported node q is acceptable for mutant m.
 func related(tree *jsonv.Value, q doctree.Path, m *mutate.Mutant) (bool, string) {
 	f := m.Focus
+	if m.Strict {
+		// key-level faults of a path template: the diagnostic belongs to that key (or its value)
+		if isPrefix(f, q) {
+			return true, "self-or-descendant"
+		}
+		return false, "not-at-the-faulty-key"
+	}
 	if isPrefix(q, f) {
 		if len(q) >= 1 || len(f) <= 1 {
 			return true, "ancestor-or-self"
@@ -272,7 +279,7 @@ func Main(args []string) int {
 		// ---- run in worker batches
 		results := map[string]*wline{}
 		var rmu sync.Mutex
-		batchSize := 60
+		batchSize := 16
 		var batches [][]*mcase
 		for i := 0; i < len(cases); i += batchSize {
 			j := i + batchSize
@@ -447,7 +454,7 @@ func Main(args []string) int {
 				maxAlloc = l.AllocB
 			}
 			amu.Unlock()
-			cpuCeil := int64(30000)
+			cpuCeil := int64(300000)
 			if v := cpuRef[c.doc] * 100; v > cpuCeil {
 				cpuCeil = v
 			}
@@ -457,7 +464,7 @@ func Main(args []string) int {
 			}
 			if l.CPUms > cpuCeil {
 				save()
-				r.Violate("cpu-ceiling:"+sigLoc(), fmt.Sprintf("%s: %d ms CPU (ceiling %d ms = max(30 s, 100 x unmutated document))", c.id, l.CPUms, cpuCeil), w)
+				r.Violate("cpu-ceiling:"+sigLoc(), fmt.Sprintf("%s: %d ms CPU (ceiling %d ms = max(300 s, 100 x unmutated document))", c.id, l.CPUms, cpuCeil), w)
 			}
 			if l.AllocB > allocCeil {
 				save()
@@ -597,9 +604,9 @@ func Main(args []string) int {
 		if int64(len(b)) > smallLimit {
 			maxNodes = nodesBig
 		} else if !r.Thorough() {
-			maxNodes = 30
+			maxNodes = 22
 			if strings.Contains(p, "/negative/") {
-				maxNodes = 12
+				maxNodes = 8
 			}
 		}
 		var local []*mcase
@@ -663,15 +670,24 @@ func Main(args []string) int {
 		if len(b) > 100000 {
 			chunk = 24
 		}
-		plan := mutate.Plan(tree, maxNodes, lrng)
+		plan := append(mustPlan(tree), mutate.Plan(tree, maxNodes, lrng)...)
+		deepDone := 0
 		k := 0
 		for _, sp := range plan {
 			if replayAt != "" && (sp.Path.String() != replayAt || sp.Kind != replayKind) {
 				continue
 			}
+			if !r.Thorough() && (sp.Kind == "deep-nesting" || sp.Kind == "deep-array") {
+				if deepDone >= 2 {
+					continue // 1000-deep documents cost ~30 s CPU each; two per document in the quick tier
+				}
+			}
 			m := mutate.At(tree, sp.Path, sp.Kind)
 			if m == nil {
 				continue
+			}
+			if sp.Kind == "deep-nesting" || sp.Kind == "deep-array" {
+				deepDone++
 			}
 			styles := []string{"json-indent2"}
 			if k%4 == 0 || replayAt != "" {
@@ -703,7 +719,7 @@ func Main(args []string) int {
 	r.Set("max_alloc_bytes", maxAlloc)
 	r.Set("documents", len(files))
 	r.Set("workers_died_on", died)
-	r.Assume("time and memory are restated as ceilings on CPU time (getrusage) and bytes allocated per document: max(30 s, 100 x the unmutated document) and max(8 GiB, 100 x); the wall-clock watchdog only kills hung workers and counts as inconclusive")
+	r.Assume("time and memory are restated as ceilings on CPU time (getrusage) and bytes allocated per document: max(300 s, 100 x the unmutated document) and max(8 GiB, 100 x); the wall-clock watchdog only kills hung workers and counts as inconclusive")
 	r.Assume("position rule: every reported line:col is the start of a node or member name of the emitted document; for a single-fault mutant the reported node is the faulty node, an ancestor other than the document root, a descendant, a sibling for key-level faults, or a node that mentions the faulty node (its key, a JSON pointer to it, or a string inside it)")
 	return r.Finish("single-fault structural mutants (19 kinds) at every node of small corpus documents and at PRNG-chosen nodes of large ones, in JSON (all) and YAML (every 4th) spelling, plus byte-level mutants (truncate, bit flip, token insert, delete) of the original texts; each run in a child process through ogen.Parse + gen.NewGenerator + WriteSource. distinct = (document, mutation kind, node, spelling)", 1500, false)
 }
@@ -823,4 +839,32 @@ func sameNodes(a, b []string) bool {
 		}
 	}
 	return true
+}
+
+// mustPlan lists mutations that every document gets regardless of node sampling: reference cycles through
+// allOf at component schemas, template faults at path keys, and null at the members of every kind of
+// named-object container (the parser must answer "... is empty or null", never dereference).
+func mustPlan(tree *jsonv.Value) []mutate.Spec {
+	var out []mutate.Spec
+	seenKind := map[string]int{}
+	containers := map[string]bool{"examples": true, "headers": true, "links": true, "callbacks": true, "encoding": true, "content": true, "variables": true, "securitySchemes": true, "responses": true, "requestBodies": true, "parameters": true, "schemas": true, "properties": true, "patternProperties": true, "pathItems": true, "webhooks": true, "paths": true, "mapping": true, "scopes": true, "flows": true, "servers": true, "tags": true, "security": true, "allOf": true, "oneOf": true, "anyOf": true, "items": true, "enum": true, "required": true}
+	doctree.WalkPaths(tree, func(p doctree.Path, v *jsonv.Value, parent *jsonv.Value) {
+		if len(p) == 0 {
+			return
+		}
+		pp := append(doctree.Path{}, p...)
+		if len(p) == 3 && p[0] == "components" && p[1] == "schemas" && seenKind["cycle"] < 3 {
+			seenKind["cycle"]++
+			out = append(out, mutate.Spec{Path: pp, Kind: "allof-cycle-inline"}, mutate.Spec{Path: pp, Kind: "allof-cycle-direct"}, mutate.Spec{Path: pp, Kind: "self-ref"})
+		}
+		if len(p) == 2 && p[0] == "paths" && seenKind["pathkey"] < 4 {
+			seenKind["pathkey"]++
+			out = append(out, mutate.Spec{Path: pp, Kind: "path-template-error"}, mutate.Spec{Path: pp, Kind: "break-escape"})
+		}
+		if len(p) >= 2 && containers[p[len(p)-2]] && seenKind["null:"+p[len(p)-2]] < 2 {
+			seenKind["null:"+p[len(p)-2]]++
+			out = append(out, mutate.Spec{Path: pp, Kind: "null"}, mutate.Spec{Path: pp, Kind: "empty-map"})
+		}
+	})
+	return out
 }
